@@ -1,6 +1,8 @@
 import OrixProofs.Lemmas.Orbit
 import OrixProofs.Properties.C03
 import OrixModel.Orbit
+import OrixProofs.Lemmas.MillerRoundPrim
+import OrixProofs.Lemmas.MillerAngle
 /-
 C10 — Miller symmetry operations enumerate true orbits.
 
@@ -9,11 +11,15 @@ under all operations; with `unique=True` the multiplicity of a vector is its num
 the group order (orbit–stabiliser), the vectors are listed grouped in input order with a matching index array;
 `unique(use_symmetry=True)` keeps exactly one vector per orbit; orbit equality is "one is an image of the other".
 Instantiated for every regenerated point-group table acting on integer lattice indices.
-The 1e-10 rounding of near-duplicates and `round` (float search for a common multiplier) are outside the theorems and
-compared on the implementation.
+`Miller.round` (`_round_indices`, model `MillerRound.lean`): multiples of a primitive triplet come back as that triplet
+(A1, largest index ≤ 51; proved counter-example at 52; spec without the 1e-7 error grid: no bound), what is returned for
+arbitrary real input (A2), Miller–Bravais quartets (A3).  `angle_with(use_symmetry=True)` (model `angleWithSym`): it is the
+minimum over the images, invariant under images of either argument, plain angle for the trivial group (B1).
+The 1e-10 rounding of near-duplicates (also of the images `angle_with` uses) and floating-point rounding are outside the
+theorems and compared on the implementation.
 -/
 namespace Orix.C10
-open Orix.Grp Orix.Orb Orix.Gen
+open Orix Orix.Grp Orix.Orb Orix.Gen Orix.MillerRound Scalar
 
 variable {X : Type} [DecidableEq X]
 
@@ -143,5 +149,401 @@ theorem table_multiplicity_divides {r : GroupRec} (hr : r ∈ PG.all) (b : Basis
 /-! non-vacuity: the general direction (1,2,3) has 48 distinct images under m-3m, (1,0,0) has 6 -/
 example : (dedupFirst (images M3.act ((PG.g37.ops .cub).getD []) ⟨1, 2, 3⟩)).length = 48 := by decide +kernel
 example : (dedupFirst (images M3.act ((PG.g37.ops .cub).getD []) ⟨1, 0, 0⟩)).length = 6 := by decide +kernel
+
+/-! ## `Miller.round` (`_round_indices`, model `OrixModel/MillerRound.lean`) -/
+
+/-- A1. ROUNDING RECOVERS THE PRIMITIVE VECTOR.  For every integer triplet `w` with coprime indices whose largest
+absolute index `M` is at most `max_index` and at most 51, and every real `t ≠ 0`: `_round_indices(t·w) = sign(t)·w`. -/
+theorem round_recovers_primitive {w : Z3} (hw : Primitive w) {maxIndex : ℕ} (hmax : maxAbsZ w ≤ maxIndex)
+    (h51 : maxAbsZ w ≤ 51) {t : ℝ} (ht : t ≠ 0) :
+    roundIndices maxIndex (smulZ t w) = .ok (if 0 < t then w else Z3.neg w) := by
+  rcases lt_or_gt_of_ne ht with h | h
+  · rw [if_neg (not_lt.mpr h.le), smulZ_neg]
+    exact roundIndices_smulZ_pos (primitive_neg hw) (neg_pos.mpr h) (by rwa [maxAbsZ_neg]) (by rwa [maxAbsZ_neg])
+  · rw [if_pos h]
+    exact roundIndices_smulZ_pos hw h hmax h51
+
+/-- … in words of the property: the result is an integer triplet with coprime indices, parallel to the input and pointing
+the same way (`input = |t| · result`) -/
+theorem round_result_parallel_coprime {w : Z3} (hw : Primitive w) {maxIndex : ℕ} (hmax : maxAbsZ w ≤ maxIndex)
+    (h51 : maxAbsZ w ≤ 51) {t : ℝ} (ht : t ≠ 0) :
+    ∃ r, roundIndices maxIndex (smulZ t w) = .ok r ∧ Primitive r ∧ smulZ t w = smulZ |t| r := by
+  refine ⟨_, round_recovers_primitive hw hmax h51 ht, ?_, ?_⟩
+  · split
+    · exact hw
+    · exact primitive_neg hw
+  · rcases lt_or_gt_of_ne ht with h | h
+    · rw [if_neg (not_lt.mpr h.le), abs_of_neg h]; exact smulZ_neg t w
+    · rw [if_pos h, abs_of_pos h]
+
+/-- the first-minimum rule behind A1: multiplier `M` has error 0 and every earlier multiplier has a strictly positive error
+on the 1e-7 grid, so `argmin` (first minimum) selects `M` -/
+theorem round_first_minimum {w : Z3} (hw : Primitive w) {maxIndex : ℕ} (hmax : maxAbsZ w ≤ maxIndex)
+    (h51 : maxAbsZ w ≤ 51) {t : ℝ} (ht : 0 < t) :
+    err (smulZ t w) (maxAbs3 (smulZ t w)) (maxAbsZ w) = 0 ∧
+    (∀ m, 1 ≤ m → m < maxAbsZ w → 0 < err (smulZ t w) (maxAbs3 (smulZ t w)) m) ∧
+    bestMultiplier maxIndex (smulZ t w) = .ok (maxAbsZ w) := by
+  have hmx : maxAbs3 (smulZ t w) = t * maxAbsZ w := by rw [maxAbs3_smulZ, abs_of_pos ht]
+  rw [hmx]
+  exact ⟨err_eq_zero_of_relErr_lt (by rw [relErr_at_max hw ht]; norm_num),
+    fun m h1 h2 => err_pos_of_relErr_gt (relErr_gt_half hw ht h1 h2 h51), bestMultiplier_smulZ hw ht hmax h51⟩
+
+/-- SPEC: with the exact error (no 1e-7 grid) the bound `M ≤ 51` is not needed -/
+theorem round_recovers_primitive_spec {w : Z3} (hw : Primitive w) {maxIndex : ℕ} (hmax : maxAbsZ w ≤ maxIndex)
+    {t : ℝ} (ht : t ≠ 0) :
+    roundIndicesSpec maxIndex (smulZ t w) = .ok (if 0 < t then w else Z3.neg w) := by
+  rcases lt_or_gt_of_ne ht with h | h
+  · rw [if_neg (not_lt.mpr h.le), smulZ_neg]
+    exact roundIndicesSpec_smulZ_pos (primitive_neg hw) (neg_pos.mpr h) (by rwa [maxAbsZ_neg])
+  · rw [if_pos h]
+    exact roundIndicesSpec_smulZ_pos hw h hmax
+
+/-- COUNTER-EXAMPLE for the code-shaped model above 51 (finding C10-round-error-grid): for `w = (52, 52, 51)` (coprime,
+all indices ≤ `max_index` when `max_index ≥ 52`) and every `t > 0`, `_round_indices(t·w, max_index ≥ 51)` selects a
+multiplier ≤ 51 — multiplier 51 already has error 0 on the 1e-7 grid — and returns a triplet that is NOT parallel to the
+input (first index in 1 … 51, and `r.x·51 ≠ r.z·52`). -/
+theorem round_misses_primitive_52 {t : ℝ} (ht : 0 < t) {maxIndex : ℕ} (h : 51 ≤ maxIndex) :
+    ∃ r, roundIndices maxIndex (smulZ t w52) = .ok r ∧ 1 ≤ r.x ∧ r.x ≤ 51 ∧ r.x * 51 ≠ r.z * 52 ∧ r ≠ w52 := by
+  have hmx : maxAbs3 (smulZ t w52) = t * (52 : ℕ) := by rw [maxAbs3_smulZ, abs_of_pos ht, maxAbsZ_w52]
+  have hne : maxAbs3 (smulZ t w52) ≠ 0 := by rw [hmx]; positivity
+  obtain ⟨m, hb, h1, h2, -, hfirst⟩ := bestMultiplier_spec (by omega : 0 < maxIndex) hne
+  have h51 : m ≤ 51 := by
+    by_contra hc
+    have := hfirst 51 (by norm_num) (by omega)
+    rw [hmx, err_eq_zero_of_relErr_lt (relErr_w52 ht)] at this
+    exact absurd this (not_lt.mpr (err_nonneg _ _ _))
+  have hx : rintZ ((m : ℝ) / (t * (52 : ℕ)) * (smulZ t w52).x) = m := by
+    have : (m : ℝ) / (t * (52 : ℕ)) * (smulZ t w52).x = ((m : ℤ) : ℝ) := by
+      simp only [smulZ, w52]; push_cast; field_simp
+    rw [this, rintZ_int]
+  have hr := roundIndices_of_best hb
+  rw [hmx] at hr
+  refine ⟨_, hr, ?_⟩
+  simp only [hx]
+  refine ⟨by omega, by omega, by omega, ?_⟩
+  intro hc
+  have := congrArg Z3.x hc
+  simp only [w52] at this
+  omega
+
+/-- A2. ARBITRARY REAL INPUT.  For every non-zero real triplet and `max_index ≥ 1` the result is the rounding of a POSITIVE
+multiple `λ·v`, `λ = m / max|vᵢ|` with an integer multiplier `1 ≤ m ≤ max_index`; hence every index is an integer within 1/2
+of `λ·vᵢ`, of absolute value at most `m ≤ max_index` (no slack), one index has absolute value exactly `m` (the result is
+not the zero triplet), and no index has the opposite sign of the input's (same closed orthant). -/
+theorem round_general {maxIndex : ℕ} (hn : 0 < maxIndex) {v : Vec3 ℝ} (hv : maxAbs3 v ≠ 0) :
+    ∃ (m : ℕ) (r : Z3), 1 ≤ m ∧ m ≤ maxIndex ∧ roundIndices maxIndex v = .ok r ∧ 0 < (m : ℝ) / maxAbs3 v ∧
+      r = ⟨rintZ ((m : ℝ) / maxAbs3 v * v.x), rintZ ((m : ℝ) / maxAbs3 v * v.y), rintZ ((m : ℝ) / maxAbs3 v * v.z)⟩ ∧
+      (|(r.x : ℝ) - (m : ℝ) / maxAbs3 v * v.x| ≤ 1 / 2 ∧ |(r.y : ℝ) - (m : ℝ) / maxAbs3 v * v.y| ≤ 1 / 2 ∧
+        |(r.z : ℝ) - (m : ℝ) / maxAbs3 v * v.z| ≤ 1 / 2) ∧
+      (|r.x| ≤ m ∧ |r.y| ≤ m ∧ |r.z| ≤ m) ∧ (|r.x| = m ∨ |r.y| = m ∨ |r.z| = m) ∧
+      (0 ≤ (r.x : ℝ) * v.x ∧ 0 ≤ (r.y : ℝ) * v.y ∧ 0 ≤ (r.z : ℝ) * v.z) := by
+  obtain ⟨m, hb, h1, h2, -, -⟩ := bestMultiplier_spec hn hv
+  have hmx : 0 < maxAbs3 v := lt_of_le_of_ne (maxAbs3_nonneg v) (Ne.symm hv)
+  have hm : (0 : ℝ) < m := by exact_mod_cast h1
+  have hl : 0 < (m : ℝ) / maxAbs3 v := div_pos hm hmx
+  obtain ⟨ax, ay, az⟩ := abs_le_maxAbs3 v
+  -- |λ x| ≤ m, with equality where |x| is the maximum
+  have hb' : ∀ x : ℝ, |x| ≤ maxAbs3 v → |(m : ℝ) / maxAbs3 v * x| ≤ ((m : ℤ) : ℝ) := by
+    intro x hx
+    rw [abs_mul, abs_of_pos hl, div_mul_eq_mul_div, div_le_iff₀ hmx]
+    push_cast
+    exact mul_le_mul_of_nonneg_left hx hm.le
+  have he : ∀ x : ℝ, |x| = maxAbs3 v → |rintZ ((m : ℝ) / maxAbs3 v * x)| = m := by
+    intro x hx
+    rcases abs_choice x with h | h
+    · have : (m : ℝ) / maxAbs3 v * x = ((m : ℤ) : ℝ) := by
+        rw [← h, hx]; push_cast; field_simp
+      rw [this, rintZ_int]; simp
+    · have : (m : ℝ) / maxAbs3 v * x = ((-(m : ℤ) : ℤ) : ℝ) := by
+        have hx' : x = -maxAbs3 v := by rw [← hx, h]; ring
+        rw [hx']; push_cast; field_simp
+      rw [this, rintZ_int]; simp
+  have hs : ∀ x : ℝ, 0 ≤ (rintZ ((m : ℝ) / maxAbs3 v * x) : ℝ) * x := by
+    intro x
+    have := rintZ_mul_nonneg ((m : ℝ) / maxAbs3 v * x)
+    have h3 : (rintZ ((m : ℝ) / maxAbs3 v * x) : ℝ) * ((m : ℝ) / maxAbs3 v * x)
+        = (m : ℝ) / maxAbs3 v * ((rintZ ((m : ℝ) / maxAbs3 v * x) : ℝ) * x) := by ring
+    rw [h3] at this
+    exact nonneg_of_mul_nonneg_right this hl
+  refine ⟨m, _, h1, h2, roundIndices_of_best hb, hl, rfl, ⟨rintZ_close _, rintZ_close _, rintZ_close _⟩,
+    ⟨rintZ_abs_le (hb' _ ax), rintZ_abs_le (hb' _ ay), rintZ_abs_le (hb' _ az)⟩, ?_, ⟨hs _, hs _, hs _⟩⟩
+  rcases maxAbs3_attained v with h | h | h
+  · exact Or.inl (he _ h)
+  · exact Or.inr (Or.inl (he _ h))
+  · exact Or.inr (Or.inr (he _ h))
+
+/-- the two inputs outside the domain: the zero triplet (numpy: NaN errors, meaningless integers) and `max_index = 0`
+(`np.argmin` of an empty sequence raises) are explicit errors of the model -/
+theorem round_errors (maxIndex : ℕ) (v : Vec3 ℝ) :
+    (maxAbs3 v = 0 → roundIndices maxIndex v = .error .zeroVector) ∧
+    (maxAbs3 v ≠ 0 → roundIndices 0 v = .error .noMultiplier) := by
+  constructor
+  · intro h; simp only [roundIndices, roundIndicesBy, bestMultiplierBy_zero err h]
+  · intro h; simp only [roundIndices, roundIndicesBy, bestMultiplierBy_noMultiplier err h]
+
+/-! ### Miller–Bravais quartets -/
+
+/-- A3 (i). DROPPING THE REDUNDANT INDEX COMMUTES WITH THE ROUNDING, for every input and every scalar type: indices 0, 1, 3
+of the rounded quartet are the rounded triplet `(h, k, l)`; in particular `max_index` limits `h, k, l` only. -/
+theorem round4_drop_commutes {α : Type} [Scalar α] [HasToInt α] (maxIndex : ℕ) (q : Vec4 α) :
+    (roundIndices4 maxIndex q).map (fun r => (⟨r.x0, r.x1, r.x3⟩ : Z3)) = roundIndices maxIndex ⟨q.x0, q.x1, q.x3⟩ := by
+  simp only [roundIndices4, roundIndices, roundIndicesBy, bestMultiplier]
+  cases bestMultiplierBy err maxIndex (⟨q.x0, q.x1, q.x3⟩ : Vec3 α) <;> rfl
+
+/-- A3 (ii). On multiples of a primitive quartet `(h, k, -(h+k), l)` (`gcd(h,k,l) = 1`, `max(|h|,|k|,|l|) ≤ min(max_index, 51)`)
+the rounded quartet is `± (h, k, -(h+k), l)`: it satisfies the four-index convention, `Miller.round` accepts it, and REBUILDING
+the redundant index from the first two gives the same quartet (rebuild ∘ round = round). -/
+theorem round4_recovers_primitive {w : Z3} (hw : Primitive w) {maxIndex : ℕ} (hmax : maxAbsZ w ≤ maxIndex)
+    (h51 : maxAbsZ w ≤ 51) {t : ℝ} (ht : t ≠ 0) :
+    roundIndices4 maxIndex (smulZ4 t (quartetOf w)) = .ok (quartetOf (if 0 < t then w else Z3.neg w)) ∧
+    millerRound4 maxIndex (smulZ4 t (quartetOf w)) = .ok (quartetOf (if 0 < t then w else Z3.neg w)) := by
+  have pos : ∀ {w : Z3}, Primitive w → maxAbsZ w ≤ maxIndex → maxAbsZ w ≤ 51 → ∀ {t : ℝ}, 0 < t →
+      roundIndices4 maxIndex (smulZ4 t (quartetOf w)) = .ok (quartetOf w) := by
+    intro w hw hmax h51 t ht
+    have hM := maxAbsZ_pos hw
+    have hb : bestMultiplier maxIndex ⟨(smulZ4 t (quartetOf w)).x0, (smulZ4 t (quartetOf w)).x1,
+        (smulZ4 t (quartetOf w)).x3⟩ = .ok (maxAbsZ w) := bestMultiplier_smulZ hw ht hmax h51
+    have hmx : maxAbs3 ⟨(smulZ4 t (quartetOf w)).x0, (smulZ4 t (quartetOf w)).x1, (smulZ4 t (quartetOf w)).x3⟩
+        = t * maxAbsZ w := by
+      show maxAbs3 (smulZ t w) = _
+      rw [maxAbs3_smulZ, abs_of_pos ht]
+    rw [roundIndices4_of_best hb, hmx]
+    simp only [smulZ4, quartetOf, roundOne_smul ht hM]
+  have reb : ∀ w : Z3, rebuild4 (quartetOf w) = .ok (quartetOf w) := by
+    intro w
+    unfold rebuild4
+    rw [if_pos (by simp [quartetOf])]
+    rfl
+  have key : roundIndices4 maxIndex (smulZ4 t (quartetOf w)) = .ok (quartetOf (if 0 < t then w else Z3.neg w)) := by
+    rcases lt_or_gt_of_ne ht with h | h
+    · rw [if_neg (not_lt.mpr h.le)]
+      have e : smulZ4 t (quartetOf w) = smulZ4 (-t) (quartetOf (Z3.neg w)) := by
+        simp only [smulZ4, quartetOf, Z3.neg]
+        congr 1 <;> (push_cast; ring)
+      rw [e]
+      exact pos (primitive_neg hw) (by rwa [maxAbsZ_neg]) (by rwa [maxAbsZ_neg]) (neg_pos.mpr h)
+    · rw [if_pos h]; exact pos hw hmax h51 h
+  exact ⟨key, by rw [millerRound4, key]; exact reb _⟩
+
+/-- A3 (iii). `max_index` does NOT limit the redundant index: `0.37 · (7, 8, -15, 1)` with `max_index = 8` rounds to
+`(7, 8, -15, 1)`, whose third index is 15. -/
+theorem round4_redundant_index_exceeds_max :
+    millerRound4 8 (smulZ4 (37 / 100) (quartetOf ⟨7, 8, 1⟩)) = .ok ⟨7, 8, -15, 1⟩ := by
+  have := (round4_recovers_primitive (w := ⟨7, 8, 1⟩) (maxIndex := 8) (by decide) (by decide) (by decide)
+    (t := 37 / 100) (by norm_num)).2
+  rwa [if_pos (by norm_num)] at this
+
+/-- A3 (iv), `_partial`: for ARBITRARY real quartets with `i = -(h+k)` the four indices are rounded one by one, so the
+rounded quartet satisfies `h + k + i = 0` only up to ±1 … -/
+theorem round4_convention_defect_partial {maxIndex : ℕ} {q : Vec4 ℝ} (hq : q.x2 = -(q.x0 + q.x1)) {r : Vec4 ℤ}
+    (h : roundIndices4 maxIndex q = .ok r) : |r.x0 + r.x1 + r.x2| ≤ 1 := by
+  simp only [roundIndices4] at h
+  split at h
+  · cases h
+  · rename_i m hb
+    simp only [Except.ok.injEq] at h
+    subst h
+    simp only [roundOne_real]
+    set l := (m : ℝ) / maxAbs3 ⟨q.x0, q.x1, q.x3⟩
+    have h0 := abs_le.mp (rintZ_close (l * q.x0))
+    have h1 := abs_le.mp (rintZ_close (l * q.x1))
+    have h2 := abs_le.mp (rintZ_close (l * q.x2))
+    rw [hq] at h2 ⊢
+    have hr : |((rintZ (l * q.x0) + rintZ (l * q.x1) + rintZ (l * -(q.x0 + q.x1)) : ℤ) : ℝ)| < 2 := by
+      rw [abs_lt]; push_cast; constructor <;> nlinarith [h0.1, h0.2, h1.1, h1.2, h2.1, h2.2]
+    have : |rintZ (l * q.x0) + rintZ (l * q.x1) + rintZ (l * -(q.x0 + q.x1))| < 2 := by exact_mod_cast hr
+    omega
+
+/-- … and ±1 does occur, in which case `Miller.round` raises (`ValueError` of the constructor): `(0.3, 0.3, -0.6, 1)` with
+`max_index = 1` rounds to `(0, 0, -1, 1)`.  Rounding and rebuilding the redundant index do NOT commute for arbitrary real
+input (rebuilding first would give `(0, 0, 0, 1)`). -/
+theorem round4_convention_counterexample :
+    roundIndices4 1 (⟨3 / 10, 3 / 10, -(6 / 10), 1⟩ : Vec4 ℝ) = .ok ⟨0, 0, -1, 1⟩ ∧
+    millerRound4 1 (⟨3 / 10, 3 / 10, -(6 / 10), 1⟩ : Vec4 ℝ) = .error .convention := by
+  have hmx : maxAbs3 (⟨3 / 10, 3 / 10, 1⟩ : Vec3 ℝ) = 1 := by
+    rw [maxAbs3_real]; norm_num [abs_of_pos]
+  obtain ⟨m, hb, h1, h2, -, -⟩ := bestMultiplier_spec (maxIndex := 1) Nat.one_pos (v := ⟨3 / 10, 3 / 10, 1⟩)
+    (by rw [hmx]; norm_num)
+  have hm : m = 1 := by omega
+  subst hm
+  have key : roundIndices4 1 (⟨3 / 10, 3 / 10, -(6 / 10), 1⟩ : Vec4 ℝ) = .ok ⟨0, 0, -1, 1⟩ := by
+    rw [roundIndices4_of_best hb, hmx]
+    have a : rintZ (((1 : ℕ) : ℝ) / 1 * (3 / 10)) = 0 := rintZ_eq_of_close (by rw [abs_lt]; constructor <;> norm_num)
+    have b : rintZ (((1 : ℕ) : ℝ) / 1 * -(6 / 10)) = -1 := rintZ_eq_of_close (by rw [abs_lt]; constructor <;> norm_num)
+    have c : rintZ (((1 : ℕ) : ℝ) / 1 * 1) = 1 := rintZ_eq_of_close (by rw [abs_lt]; constructor <;> norm_num)
+    rw [a, b, c]
+  refine ⟨key, ?_⟩
+  rw [millerRound4, key]
+  simp [rebuild4]
+
+/-! ## `angle_with(use_symmetry=True)` (model `angleWithSym`) -/
+
+section Angle
+variable {X : Type} (act : M3 → X → X) (dot : X → X → ℝ)
+
+/-- B (definition clause). The symmetry-aware angle IS the minimum of the angles to the images of `other` under all
+operations: it is attained by an operation and no operation gives less (angles as the code takes them:
+`arccos(round(cos, 12))`). -/
+theorem angleWithSym_is_min {L : List M3} (hL : L ≠ []) (self other : X) :
+    ∃ a, angleWithSym act dot L self other = some a ∧
+      (∃ g ∈ L, a = angleTo dot self (act g other)) ∧ ∀ g ∈ L, a ≤ angleTo dot self (act g other) := by
+  obtain ⟨a, ha⟩ := minList_isSome (l := (images act L other).map (angleTo dot self))
+    (by cases L with
+        | nil => exact absurd rfl hL
+        | cons g gs => simp [images])
+  exact ⟨a, ha, (angleWithSym_eq_some_iff act dot L self other a).mp ha⟩
+
+/-- the code enumerates the DISTINCT images (`symmetrise(unique=True)`); the minimum is the same -/
+theorem angleWithSym_eq_over_distinct [DecidableEq X] (L : List M3) (self other : X) :
+    angleOver dot self (dedupFirst (images act L other)) = angleWithSym act dot L self other :=
+  angleOver_congr_mem dot self (fun _ => mem_dedupFirst)
+
+/-- the rounded angle brackets the exact minimum angle: with `c g` the exact cosine between `self` and the image `g·other`,
+`arccos(c g₀ + 5e-13) ≤ angle` for the minimising `g₀` and `angle ≤ arccos(c g - 5e-13)` for every `g` -/
+theorem angleWithSym_bracket {L : List M3} (self other : X) {a : ℝ} (h : angleWithSym act dot L self other = some a) :
+    (∃ g ∈ L, Real.arccos (dot self (act g other) / (Real.sqrt (dot self self) * Real.sqrt (dot (act g other) (act g other)))
+        + 1 / 2 / 10 ^ 12) ≤ a) ∧
+    ∀ g ∈ L, a ≤ Real.arccos (dot self (act g other) / (Real.sqrt (dot self self) * Real.sqrt (dot (act g other) (act g other)))
+        - 1 / 2 / 10 ^ 12) := by
+  obtain ⟨⟨g, hg, rfl⟩, hmin⟩ := (angleWithSym_eq_some_iff act dot L self other a).mp h
+  exact ⟨⟨g, hg, (angleTo_bracket dot self (act g other)).1⟩,
+    fun k hk => le_trans (hmin k hk) (angleTo_bracket dot self (act k other)).2⟩
+
+/-- SEVERAL `other` vectors (code-shaped, finding C10-angle-sym-several-others): the code takes the minimum over the
+concatenated orbits of all of them.  For one `other` vector this is the symmetry-aware angle … -/
+theorem angleWithSymAll_singleton (L : List M3) (self other : X) :
+    angleWithSymAll act dot L self [other] = angleWithSym act dot L self other := by
+  simp [angleWithSymAll, angleWithSym]
+
+/-- … for several it is at most the symmetry-aware angle to EACH of them, i.e. not the angle to the vector at the same
+position -/
+theorem angleWithSymAll_le {L : List M3} {self : X} {others : List X} {o : X} (ho : o ∈ others) {a b : ℝ}
+    (ha : angleWithSymAll act dot L self others = some a) (hb : angleWithSym act dot L self o = some b) : a ≤ b := by
+  simp only [angleWithSymAll, angleWithSym, angleOver, minList_eq_some_iff] at ha hb
+  apply ha.2
+  obtain ⟨x, hx, rfl⟩ := List.mem_map.mp hb.1
+  exact List.mem_map.mpr ⟨x, List.mem_flatMap.mpr ⟨o, ho, hx⟩, rfl⟩
+
+variable (act_mul : ∀ a b x, act (a.mul b) x = act a (act b x)) (act_one : ∀ x, act M3.one x = x)
+
+include act_one in
+/-- B1 (trivial group): the plain angle (with the 12-decimal rounding of the cosine) -/
+theorem angleWithSym_trivial (self other : X) :
+    angleWithSym act dot [M3.one] self other = some (angleTo dot self other) := by
+  simp [angleWithSym, angleOver, images, minList, act_one]
+
+include act_one in
+/-- B1: never larger than the plain angle -/
+theorem angleWithSym_le_plain {L : List M3} (hL : IsGroupList L) (self other : X) :
+    ∃ a, angleWithSym act dot L self other = some a ∧ a ≤ angleTo dot self other := by
+  obtain ⟨a, ha, -, hmin⟩ := angleWithSym_is_min act dot (L := L) (List.ne_nil_of_mem hL.one_mem) self other
+  refine ⟨a, ha, ?_⟩
+  have := hmin M3.one hL.one_mem
+  rwa [act_one] at this
+
+include act_mul act_one in
+/-- B1: INVARIANT under replacing `other` by any of its images -/
+theorem angleWithSym_other_image {L : List M3} (hL : IsGroupList L) {g : M3} (hg : g ∈ L) (self other : X) :
+    angleWithSym act dot L self (act g other) = angleWithSym act dot L self other := by
+  obtain ⟨g', hg', h1, h2⟩ := inv_two_sided hL hg
+  apply angleOver_congr_mem
+  intro x
+  simp only [images, List.mem_map]
+  constructor
+  · rintro ⟨h, hh, rfl⟩
+    exact ⟨h.mul g, hL.mul_mem h hh g hg, act_mul h g other⟩
+  · rintro ⟨h, hh, rfl⟩
+    refine ⟨h.mul g', hL.mul_mem h hh g' hg', ?_⟩
+    rw [act_mul, ← act_mul g' g, h2, act_one]
+
+include act_mul in
+/-- B1: INVARIANT under replacing `self` by any of its images, for operations that preserve the dot product (orthogonal
+matrices in Cartesian coordinates; lattice operations with the metric tensor) -/
+theorem angleWithSym_self_image {L : List M3} (hL : IsGroupList L)
+    (hdot : ∀ g ∈ L, ∀ x y, dot (act g x) (act g y) = dot x y) {g : M3} (hg : g ∈ L) (self other : X) :
+    angleWithSym act dot L (act g self) other = angleWithSym act dot L self other := by
+  obtain ⟨g', hg', h1, h2⟩ := inv_two_sided hL hg
+  have hang : ∀ k ∈ L, ∀ x y, angleTo dot (act k x) (act k y) = angleTo dot x y := by
+    intro k hk x y
+    simp only [angleTo, hdot k hk]
+  unfold angleWithSym angleOver
+  apply minList_congr
+  intro a
+  simp only [images, List.map_map, List.mem_map, Function.comp]
+  constructor
+  · rintro ⟨h, hh, rfl⟩
+    refine ⟨g'.mul h, hL.mul_mem g' hg' h hh, ?_⟩
+    rw [← hang g hg self (act (g'.mul h) other), ← act_mul, ← M3.mul_assoc, h1, M3.one_mul]
+  · rintro ⟨h, hh, rfl⟩
+    refine ⟨g.mul h, hL.mul_mem g hg h hh, ?_⟩
+    rw [act_mul, hang g hg]
+
+end Angle
+
+/-- the code's PLAIN angle (`use_symmetry=False`) rounds the cosine to 10 decimals, the symmetry-aware one to 12: "≤ the plain
+angle" therefore holds for the 12-decimal plain angle (`angleWithSym_le_plain`) but not for the 10-decimal one — for a cosine
+of `1 - 4e-11` the plain angle is 0 and the symmetry-aware angle under the trivial group is positive -/
+theorem plain_angle_10_decimals_can_be_smaller :
+    Real.arccos (roundDec 10 (1 - 4 / 10 ^ 11 : ℝ)) < Real.arccos (roundDec 12 (1 - 4 / 10 ^ 11 : ℝ)) := by
+  have h10 : roundDec 10 (1 - 4 / 10 ^ 11 : ℝ) = 1 := by
+    simp only [roundDec, LatLemmas.pow10_real]
+    have : rint ((1 - 4 / 10 ^ 11 : ℝ) * 10 ^ 10) = ((10 ^ 10 : ℤ) : ℝ) := by
+      rw [rint_eq_rintZ, rintZ_eq_of_close (n := 10 ^ 10)]
+      rw [abs_lt]; constructor <;> norm_num
+    rw [this]; norm_num
+  have h12 : roundDec 12 (1 - 4 / 10 ^ 11 : ℝ) = 1 - 4 / 10 ^ 11 := by
+    simp only [roundDec, LatLemmas.pow10_real]
+    have : (1 - 4 / 10 ^ 11 : ℝ) * 10 ^ 12 = ((10 ^ 12 - 40 : ℤ) : ℝ) := by norm_num
+    rw [this, ColorKey.rint_int]; norm_num
+  rw [h10, h12, Real.arccos_one]
+  exact Real.arccos_pos.mpr (by norm_num)
+
+/-! ### instances for the regenerated point-group tables, non-vacuity -/
+
+/-- for every point-group object in every lattice basis it is given in, acting on integer indices, with any dot product:
+the symmetry-aware angle does not change when `other` is replaced by an image -/
+theorem table_angle_other_image {r : GroupRec} (hr : r ∈ PG.all) (b : Basis) {L : List M3} (hL : r.ops b = some L)
+    (dot : Z3 → Z3 → ℝ) {g : M3} (hg : g ∈ L) (self other : Z3) :
+    angleWithSym M3.act dot L self (M3.act g other) = angleWithSym M3.act dot L self other :=
+  angleWithSym_other_image M3.act dot act_mul_Z3 act_one_Z3 (C03.group_facts hr b hL).group hg self other
+
+/-- … and on real direct-lattice coordinates with the metric dot product `uᵀ G v` (what the driver runs) -/
+theorem table_angle_other_image_real {r : GroupRec} (hr : r ∈ PG.all) (b : Basis) {L : List M3} (hL : r.ops b = some L)
+    (G : Mat3 ℝ) {g : M3} (hg : g ∈ L) (self other : Vec3 ℝ) :
+    angleWithSym actS (dotG G) L self (actS g other) = angleWithSym actS (dotG G) L self other :=
+  angleWithSym_other_image actS (dotG G) actS_mul actS_one (C03.group_facts hr b hL).group hg self other
+
+/-- … and when `self` is replaced by an image, for a metric tensor the operations preserve -/
+theorem table_angle_self_image_real {r : GroupRec} (hr : r ∈ PG.all) (b : Basis) {L : List M3} (hL : r.ops b = some L)
+    (G : Mat3 ℝ) (hG : ∀ g ∈ L, ∀ x y, dotG G (actS g x) (actS g y) = dotG G x y) {g : M3} (hg : g ∈ L)
+    (self other : Vec3 ℝ) :
+    angleWithSym actS (dotG G) L (actS g self) other = angleWithSym actS (dotG G) L self other :=
+  angleWithSym_self_image actS (dotG G) actS_mul (C03.group_facts hr b hL).group hG hg self other
+
+/-! non-vacuity: `0.37 · (1,2,3)` and `-2.5 · (1,2,3)` with `max_index = 12`; the largest admissible index 51 with
+`max_index = 60`; the quartet `-2.5 · (1,1,-2,3)` with `max_index = 20` -/
+example : roundIndices 12 (smulZ (37 / 100) ⟨1, 2, 3⟩) = .ok ⟨1, 2, 3⟩ := by
+  have := round_recovers_primitive (w := ⟨1, 2, 3⟩) (maxIndex := 12) (by decide) (by decide) (by decide)
+    (t := 37 / 100) (by norm_num)
+  rwa [if_pos (by norm_num)] at this
+example : roundIndices 12 (smulZ (-5 / 2) ⟨1, 2, 3⟩) = .ok ⟨-1, -2, -3⟩ := by
+  have := round_recovers_primitive (w := ⟨1, 2, 3⟩) (maxIndex := 12) (by decide) (by decide) (by decide)
+    (t := -5 / 2) (by norm_num)
+  rwa [if_neg (by norm_num)] at this
+example : roundIndices 60 (smulZ (37 / 100) ⟨51, 51, 50⟩) = .ok ⟨51, 51, 50⟩ := by
+  have := round_recovers_primitive (w := ⟨51, 51, 50⟩) (maxIndex := 60) (by decide) (by decide) (by decide)
+    (t := 37 / 100) (by norm_num)
+  rwa [if_pos (by norm_num)] at this
+example : millerRound4 20 (smulZ4 (-5 / 2) (quartetOf ⟨1, 1, 3⟩)) = .ok ⟨-1, -1, 2, -3⟩ := by
+  have := (round4_recovers_primitive (w := ⟨1, 1, 3⟩) (maxIndex := 20) (by decide) (by decide) (by decide)
+    (t := -5 / 2) (by norm_num)).2
+  rwa [if_neg (by norm_num)] at this
+/-! the hypotheses of the angle theorems are satisfiable: m-3m on integer indices -/
+example (self other : Z3) (g : M3) (hg : g ∈ (PG.g37.ops .cub).getD []) :
+    angleWithSym M3.act (fun u v => ((Z3.dot u v : ℤ) : ℝ)) ((PG.g37.ops .cub).getD []) self (M3.act g other)
+      = angleWithSym M3.act (fun u v => ((Z3.dot u v : ℤ) : ℝ)) ((PG.g37.ops .cub).getD []) self other := by
+  have hr : PG.g37 ∈ PG.all := by simp [PG.all]
+  have hL : PG.g37.ops .cub = some ((PG.g37.ops .cub).getD []) := by decide
+  exact table_angle_other_image hr .cub hL _ hg self other
 
 end Orix.C10
